@@ -5,6 +5,10 @@
 //       cxx/c06_harness.cc $FE_REPO/src/point_one/fusion_engine/messages/crc.cc \
 //       $FE_REPO/src/point_one/fusion_engine/parsers/fusion_engine_framer.cc \
 //       $FE_REPO/src/point_one/fusion_engine/common/logging.cc
+// together with cxx/c06_startup.cc, in BOTH link orders (c06_startup.cc + this file before the repository's sources, and
+// after them).  With C06_SERVE_AT_STARTUP=<n> in the environment the first n request lines are answered from the constructor
+// of a namespace-scope object of c06_startup.cc - before main(), and in the first link order before the dynamic initialisers
+// of crc.cc have run - and the remaining lines from main().  The answers must not depend on that.
 //
 // Line protocol (stdin -> stdout, one answer line per request line, same order).  `-` is the empty buffer.
 // Every buffer handed to the code under test is an exact-size heap block (malloc => 16-aligned, ASan redzone
@@ -166,10 +170,14 @@ static bool apply_spec(const std::string& spec, std::vector<uint8_t>* m) {
   return true;
 }
 
-int main() {
+// Answers up to `max_requests` request lines (all that follow when negative).  Called from main(), and - see c06_startup.cc -
+// from the constructor of a namespace-scope object, i.e. DURING STATIC INITIALISATION, for the first requests of the input.
+long c06_serve(long max_requests) {
   std::ios::sync_with_stdio(false);
   std::string line;
-  while (std::getline(std::cin, line)) {
+  long served = 0;
+  while ((max_requests < 0 || served < max_requests) && std::getline(std::cin, line)) {
+    ++served;
     std::istringstream is(line);
     std::string cmd;
     is >> cmd;
@@ -321,6 +329,11 @@ int main() {
     std::cout << out.str() << "\n";
   }
   std::cout.flush();
+  return served;
+}
+
+int main() {
+  c06_serve(-1);
   delete g_framer;
   return 0;
 }
